@@ -885,7 +885,7 @@ func Vacuum(ctx context.Context, tableName string, beforeTime time.Time) error {
 		return fmt.Errorf("table not found: %s", tableName)
 	}
 
-	if table.Tree.Root.IsDirty() {
+	if !table.S3Options.ReadOnly && table.Tree.Root.IsDirty() {
 		return fmt.Errorf("table has uncommitted changes: %s", tableName)
 	}
 	db, err := table.Tree.Root.Clone(ctx)
